@@ -59,9 +59,10 @@ def scenarios(quick: bool) -> List[Scenario]:
         Scenario("gc-vs-delete", [A("c1", "committer", [{"t": "delete", "refs": [("init", 1)]}]), gc], **kw),
         Scenario("gc-vs-expire-append", [A("c1", "committer", [{"t": "expire", "cutoff": 8}, {"t": "append"}]), gc], **kw),
     ]
+    # a transaction that loses the commit race and retries while the collector runs: its data-file markers must survive the retry
+    s.append(Scenario("gc-vs-2tx-retry", [A("c1", "committer", [{"t": "append"}]), A("c2", "committer", [{"t": "append", "n": 2}]), gc], **kw))
     if not quick:
         s += [
-            Scenario("gc-vs-2tx-retry", [A("c1", "committer", [{"t": "append"}]), A("c2", "committer", [{"t": "append", "n": 2}]), gc], **kw),
             Scenario("gc-twice-vs-multi", [A("c1", "committer", [{"t": "multi", "n": 1, "refs": [("init", 1)], "cutoff": 8}]),
                                            A("g1", "collector", [{"t": "gc", "grace": 1000}, {"t": "gc", "grace": 1000}])], **kw),
             Scenario("gc-vs-delsnap", [A("c1", "committer", [{"t": "delsnap", "who": ("init", 1)}, {"t": "append"}]), gc], init_snaps=3, **kw),
